@@ -23,6 +23,9 @@ structure Config where
     (all funnel into `serialize_der_with_signer`) -/
 def issueCert (cfg : Config) (H : Hashes) (p : CertParams) (subject : PubKey) (issuer : Issuer)
     (sign : Signer) : Out Asn1 :=
+  match certInvalid p issuer with
+  | some e => .err e
+  | none =>
   if !cfg.crypto && p.serial.isNone then .err .missingSerialNumber
   else if certPanics p issuer then .panic "yasna/time assertion in serialize_der_with_signer"
   else match signDer issuer.key.alg sign (tbsCertificate H p subject issuer) with
@@ -33,7 +36,10 @@ def issueCert (cfg : Config) (H : Hashes) (p : CertParams) (subject : PubKey) (i
 def serializeRequest (p : CertParams) (subject : PubKey) (attrs : List Attribute)
     (sign : Signer) : Out Asn1 :=
   if csrUnsupported p then .err .unsupportedInCsr
-  else if csrPanics p attrs then .panic "yasna assertion in serialize_request"
+  else match csrInvalid p attrs with
+  | some e => .err e
+  | none =>
+  if csrPanics p attrs then .panic "yasna assertion in serialize_request"
   else match signDer subject.alg sign (csrInfo p subject attrs) with
     | .ok t => .ok t
     | .error e => .err e
@@ -42,7 +48,10 @@ def serializeRequest (p : CertParams) (subject : PubKey) (attrs : List Attribute
 def issueCrl (H : Hashes) (p : CrlParams) (issuer : Issuer) (sign : Signer) : Out Asn1 :=
   if crlNextUpdateInvalid p then .err .invalidCrlNextUpdate
   else if crlIssuerNotSigner issuer then .err .issuerNotCrlSigner
-  else if crlPanics p issuer then .panic "yasna/time assertion in CRL serialize_der"
+  else match crlInvalid p issuer with
+  | some e => .err e
+  | none =>
+  if crlPanics p issuer then .panic "yasna/time assertion in CRL serialize_der"
   else match signDer issuer.key.alg sign (tbsCertList H p issuer) with
     | .ok t => .ok t
     | .error e => .err e
